@@ -102,6 +102,15 @@ fn real_main(mut args: Vec<String>) -> i32 {
             }
             0
         }
+        "eval" => {
+            for fen in &args[1..] {
+                match refchess::parse_fen_strict(fen) {
+                    Ok(p) => out!("{}: sum|psq| mid {} end {} (endgame below {}), sane {}, legal {}", fen, refchess::psq_abs_sum(&p.pos, false), refchess::psq_abs_sum(&p.pos, true), refchess::endgame_threshold_total(), p.pos.sane(), p.pos.legal().len()),
+                    Err(e) => out!("{}: {}", fen, e),
+                }
+            }
+            0
+        }
         "c12bench" => {
             let p = refchess::parse_fen_strict("8/8/6K1/1Pp5/3k4/8/8/8 w - c6 0 1").unwrap().pos;
             let strings = props::c12::alphabet();
@@ -140,7 +149,10 @@ fn real_main(mut args: Vec<String>) -> i32 {
                     }
                     "C19" => {
                         let mut a = explore::Acc::new();
-                        a.notes.push(props::c19::fresh_digest(&tier));
+                        match shard {
+                            Some((i, n)) => props::c19::schedule_invariance(if tier == "quick" { 2 } else { 3 }, i, n, &mut a),
+                            None => a.notes.push(props::c19::fresh_digest(&tier)),
+                        }
                         a
                     }
                     _ => {
@@ -216,7 +228,7 @@ fn replay(path: &str, worker: bool) -> i32 {
             "c08-tiny" => props::c08::replay(r),
             "c07-stop" => props::c07::replay(r),
             "c09-root" => props::c09::replay(r),
-            "c10-root" => props::c10::replay(r),
+            "c10-root" | "c10-history" | "c10-game" => props::c10::replay(r),
             "e5-schedule" if prop == "C19" => props::c19::replay(r),
             "e5-schedule" => props::c14::replay(r, &props::c14::oracle),
             "c13-case" => props::c13::replay(r),
